@@ -16,7 +16,7 @@ UNIT = dict(
         "DynamicTimeout::new": dict(file="tlconfig"),
         "DynamicTimeout::clone@Clone": dict(file="tlconfig"),
         "TimeLimiterConfig::clone@Clone": dict(file="tlconfig"),
-        "TimeLimiterLayer::new": dict(file="tllayer", rules=[("sub", "R10-into-arc", r"config\.into\(\)", "Arc::new(config)", 1)]),
+        "TimeLimiterLayer::new": dict(file="tllayer", rules=[("sub", "R10-into-arc", r"config\.into\(\)", "Arc::new(config)", -1)]),
         "TimeLimiterConfigBuilder::timeout_duration": dict(file="tlconfig"),
         "TimeLimiterConfigBuilder::timeout_fn": dict(file="tlconfig"),
         "TimeLimiterConfigBuilder::cancel_running_future": dict(file="tlconfig", rules=[("sub", "R16-mut-self", r"\bself\b", "self_", -1), ("inject", None, "start", "let mut self_ = self;")]),
